@@ -12,10 +12,9 @@ hand-made shapes of gen.ssb.aimed_shapes() and probes with keyword-like opcode n
 """
 from __future__ import annotations
 
-import copy
 from typing import Any
 
-from vlib.result import Ctx, PropResult, StandIn, Violation
+from vlib.result import Ctx, PropResult, StandIn
 
 from props import _ssb_common as K
 
@@ -112,12 +111,12 @@ def _inputs(shard: int, nshards: int, tier: str, seed: int):
     yield from K.aimed_space(shard, nshards, multiline=True)
     # (b) exhaustive: all class lists over the task's alphabet up to 3 ops, over the jump-shape alphabet up to 4 (5) ops
     yield from K.enum_space((1, 2, 3), ssb.ALPHABET_TASK, shard, nshards, tag="enumT")
-    yield from K.enum_space((4,), JUMPSHAPE_QUICK, shard, nshards, tag="enumJ")
     if thorough:
-        yield from K.enum_space((4,), ssb.ALPHABET_JUMPSHAPE, shard, nshards, tag="enumJc")
-        yield from K.enum_space((4,), ssb.ALPHABET_TASK, shard, nshards, tag="enumT")
-        yield from K.enum_space((5,), ("plain", "branch", "jump", "Return"), shard, nshards, tag="enumJ")
+        yield from K.enum_space((4,), ssb.ALPHABET_TASK, shard, nshards, tag="enumT")  # includes the quick tier's 4-op space
+        yield from K.enum_space((5,), ("plain", "branch", "jump", "Return"), shard, nshards, max_routines=1, tag="enumJ")
         yield from K.enum_space((3,), ssb.ALPHABET_JUMPSHAPE, shard, nshards, max_routines=3, tag="enumJ3r")
+    else:
+        yield from K.enum_space((4,), JUMPSHAPE_QUICK, shard, nshards, tag="enumJ")
     # (d)
     yield from K.random_space(seed, 20000 if thorough else 3000, shard, nshards, repair=False)
     yield from K.random_space(seed + 1, 4000 if thorough else 600, shard, nshards, repair=False, multiline=True)
@@ -171,7 +170,7 @@ def run(ctx: Ctx) -> PropResult:
     bound = (
         "exhaustive: every op-class list with <= 3 ops over {plain, ctx, Branch*, Jump, Call, Switch, Case*, message_Switch*, CaseText, "
         "DefaultText, Return, End, Hold} and with 4 ops over {plain, Branch*, Jump, Case*, Return}"
-        + (" (thorough: 4 ops also with Call and over the full alphabet, 5 ops over {plain, Branch*, Jump, Return}, 3 routines for 3 ops)" if thorough else "")
+        + (" (thorough: 4 ops over the full alphabet, 5 ops in one routine over {plain, Branch*, Jump, Return}, up to 3 routines for 3 ops)" if thorough else "")
         + " x every in-range jump target (also into the other routine) x 1-2 routines (+ alias routine); NO well-formedness filter; "
         f"plus {20000 + 4000 if thorough else 3000 + 600} seeded random lists <= 30 ops in 1-3 routines, {len(_aimed())} hand-made shapes x 15 variants, keyword-like and odd opcode names"
     )
